@@ -104,12 +104,10 @@ var pureWhenConcrete = map[string]interface{}{
 	"unicode/utf8.ValidRune":            utf8.ValidRune,
 	"math/bits.Mul64":                   bits.Mul64,
 	"math/bits.Add64":                   bits.Add64,
-	"math/bits.Len64":                   bits.Len64,
 	"math/bits.Len32":                   bits.Len32,
 	"math/bits.Len":                     bits.Len,
 	"math/bits.TrailingZeros64":         bits.TrailingZeros64,
 	"math/bits.TrailingZeros32":         bits.TrailingZeros32,
-	"math/bits.LeadingZeros64":          bits.LeadingZeros64,
 	"math/bits.LeadingZeros32":          bits.LeadingZeros32,
 	"math/bits.OnesCount64":             bits.OnesCount64,
 	"internal/bytealg.IndexByte":        bytes.IndexByte,
@@ -552,6 +550,14 @@ func init() {
 			pat := (*a[0].(*value)).(structure)[0].(string)
 			return i.ufCall("re:"+pat, []value{iface{types.Typ[types.String], a[1]}}, types.Bool)
 		},
+		"math/bits.Len64": func(i *interpreter, fr *frame, a []value) value { return i.len64(a[0]) },
+		"math/bits.LeadingZeros64": func(i *interpreter, fr *frame, a []value) value {
+			n := i.len64(a[0])
+			if s, ok := n.(*Sym); ok {
+				return i.mk(i.tb.BVBin(smt.OSub, i.tb.BVConst(64, 64), s.T), types.Int)
+			}
+			return 64 - n.(int)
+		},
 		"internal/abi.NoEscape": func(i *interpreter, fr *frame, a []value) value { return a[0] },
 		"internal/bytealg.MakeNoZero": func(i *interpreter, fr *frame, a []value) value {
 			n := i.concInt(a[0])
@@ -942,4 +948,18 @@ func (i *interpreter) caseModel(r value, upper bool) value {
 		return unicode.ToUpper(c)
 	}
 	return unicode.ToLower(c)
+}
+
+// len64 is math/bits.Len64; for a symbolic operand a fork-free chain of comparisons.
+func (i *interpreter) len64(x value) value {
+	s, ok := x.(*Sym)
+	if !ok {
+		return bits.Len64(x.(uint64))
+	}
+	b := i.tb
+	r := b.BVConst(0, 64)
+	for k := 0; k < 64; k++ {
+		r = b.Ite(b.BVCmp(smt.OULE, b.BVConst(uint64(1)<<uint(k), 64), s.T), b.BVConst(uint64(k+1), 64), r)
+	}
+	return i.mk(r, types.Int)
 }
